@@ -7,8 +7,8 @@ import json
 import bindgen as G
 import bindlib as B
 
-WIDE_FEATURES = {"attr", "elem", "child", "list", "text", "ns", "nillable", "tokens", "wrapper", "sequence", "attributes", "fixed", "inherit", "wildcard", "punion"}
-FEAT = {"nillable": True, "tokens": True, "wrapper": True, "sequence": True, "fixed": True, "anyAttrs": True, "inherit": True, "wildcard": True, "union": True}
+WIDE_FEATURES = {"attr", "elem", "child", "list", "text", "ns", "nillable", "tokens", "wrapper", "sequence", "attributes", "fixed", "inherit", "wildcard", "punion", "qelem"}
+FEAT = {"nillable": True, "tokens": True, "wrapper": True, "sequence": True, "fixed": True, "anyAttrs": True, "inherit": True, "wildcard": True, "union": True, "qname": True}
 XSI = "http://www.w3.org/2001/XMLSchema-instance"
 
 TYPING = ("out-of-claim: None inside a list that is not nillable", "out-of-claim: None where the default is not None")
@@ -63,6 +63,9 @@ def _is_list(t):
     return isinstance(t, dict) and "list" in t
 
 
+QNAME_NOT_ELEMENT = "out-of-claim: QName-typed attribute or text var (not in the fragments)"
+QNAME_LOCAL = "out-of-claim: QName whose local part is not an NCName (not representable as prefix:local)"
+_NCNAME = __import__("re").compile(r"^[^\W\d][\w.\-]*\Z", __import__("re").ASCII)  # (the driver evaluates NCName on ASCII)
 UNION_NOT_ELEMENT = "out-of-claim: union-typed attribute or text var (not in the fragments)"
 UNION_EARLIER = "C01-union-value-reads-as-earlier-type"
 
@@ -277,6 +280,11 @@ def regions(desc, value, ctx=None, inherit=True):
             is_union = isinstance(base, dict) and "union" in base and all(isinstance(m_, str) for m_ in base["union"])
 
             def item(y, in_list):
+                if base == "qname" and isinstance(y, dict) and "qname" in y:
+                    local = y["qname"].split("}", 1)[1] if y["qname"].startswith("{") else y["qname"]
+                    if not _NCNAME.match(local):
+                        out.append(QNAME_LOCAL)
+                    return
                 if is_union and isinstance(y, dict) and any(k in y for k in ("str", "int", "bool")):
                     var = next(w for _, vs in meta["elements"] for w in vs if w["name"] == f["name"])
                     if union_reads_back(var["types"], y) != y:
@@ -302,6 +310,9 @@ def regions(desc, value, ctx=None, inherit=True):
                     if not in_list and dflt not in (None, "", "<required>"):
                         out.append("C01-empty-str-element-default")
 
+            if typ in ("Attribute", "Text") and base == "qname":
+                out.append(QNAME_NOT_ELEMENT)
+                continue
             if typ in ("Attribute", "Text") and isinstance(base, dict) and "union" in base:
                 out.append(UNION_NOT_ELEMENT)
                 continue
@@ -392,6 +403,14 @@ def ctx_expected(ctx, ns_agree, feat=None):
                     return False
             if any(len(w["types"]) > 1 for _, w in m["attributes"]) or (m["text"] and len(m["text"]["types"]) > 1):
                 return False  # a union-typed attribute or text var: not in the fragments
+            # QName-typed vars: element vars only, Optional with default None or a list
+            isq = lambda v: v["types"] == [{"prim": "qname"}]  # noqa: E731
+            if any(isq(w) for _, w in m["attributes"]) or (m["text"] and isq(m["text"])):
+                return False
+            for v in vs:
+                if isq(v) and not (on("qname") and v["init"] and not v["tokens"] and not v["nillable"]
+                                   and v["default"] == ("list" if v["list_element"] else None)):
+                    return False
             # a union of primitives: an element var, Optional with default None or a list
             for v in vs:
                 if len(v["types"]) > 1 and not (on("union") and v["init"] and not v["tokens"] and not v["nillable"]
@@ -493,6 +512,16 @@ def spoil(rng, value):
                 for y in x["list"]:
                     nones(y)
 
+    def qnames(x):
+        if isinstance(x, dict):
+            if "qname" in x and isinstance(x["qname"], str):
+                if rng.random() < 0.15:
+                    x["qname"] = rng.choice(["{urn:a}n 1", "a:b", "{urn:q}1x", "{urn:a}-x"])  # (ASCII only: the driver evaluates NCName on ASCII)
+            else:
+                for y in (x.get("fields") and [kv[1] for kv in x["fields"]]) or x.get("list") or []:
+                    qnames(y)
+
+    qnames(v)
     nones(v)
     for leaf in leaves:
         if rng.random() < 0.25:
@@ -540,7 +569,7 @@ def normal_generic(value):
 
 
 # the feature sets of the theorems bind_generate_F2 … F8 (Props/C01Wide.lean)
-_ORDER = ["nillable", "tokens", "wrapper", "sequence", "fixed", "anyAttrs", "inherit", "wildcard", "union"]
+_ORDER = ["nillable", "tokens", "wrapper", "sequence", "fixed", "anyAttrs", "inherit", "wildcard", "union", "qname"]
 FRAGMENTS = {
     "F2": {"nillable": True},
     "F3": {"nillable": True, "tokens": True},
@@ -548,8 +577,9 @@ FRAGMENTS = {
     "F5": {"nillable": True, "tokens": True, "wrapper": True, "sequence": True},
     "F6": {"nillable": True, "tokens": True, "wrapper": True, "sequence": True, "fixed": True, "anyAttrs": True},
     "F7": {"nillable": True, "tokens": True, "wrapper": True, "sequence": True, "fixed": True, "anyAttrs": True, "inherit": True},
-    "F8": {k: True for k in FEAT if k != "union"},
-    "F9": dict(FEAT),
+    "F8": {k: True for k in FEAT if k not in ("union", "qname")},
+    "F9": {k: True for k in FEAT if k != "qname"},
+    "F10": dict(FEAT),
 }
 
 
@@ -567,7 +597,7 @@ def pick_feat(rng):
 def features_for(rng, feat):
     """generator features that mostly stay inside `feat` (and sometimes do not)"""
     need = {"nillable": "nillable", "tokens": "tokens", "wrapper": "wrapper", "sequence": "sequence", "attributes": "anyAttrs",
-            "fixed": "fixed", "inherit": "inherit", "wildcard": "wildcard", "punion": "union"}
+            "fixed": "fixed", "inherit": "inherit", "wildcard": "wildcard", "punion": "union", "qelem": "qname"}
     return {f for f in WIDE_FEATURES if f not in need or feat.get(need[f]) or rng.random() < 0.06}
 
 
@@ -731,6 +761,16 @@ WILD_SINGLE_CASE = _case(
     {"classes": [{"name": "Root", "fields": [_f("w", {"opt": "object"}, NONE, type="Wildcard", namespace="##any")]}]},
     _o("Root", w=_any("g", "t")))
 
+
+# QName-typed elements
+_QN_ROOT = {"classes": [{"name": "Root", "fields": [
+    _f("a", {"opt": "qname"}, NONE, type="Element"), _f("b", {"list": "qname"}, LIST, type="Element")]}]}
+QNAME_OK = _case(_QN_ROOT, _o("Root", a={"qname": "{urn:a}n1"},
+                              b={"list": [{"qname": "n2"}, {"qname": "{urn:q}n1"}, {"qname": "{urn:a}n2"}]}))
+QNAME_NONE = _case(_QN_ROOT, _o("Root", a=None, b={"list": []}))
+QNAME_BAD_LOCAL = _case(_QN_ROOT, _o("Root", a={"qname": "{urn:a}n 1"}, b={"list": []}))
+QNAME_ATTR = _case({"classes": [{"name": "Root", "fields": [_f("c", {"opt": "qname"}, NONE, type="Attribute")]}]},
+                   _o("Root", c={"qname": "{urn:a}n1"}))
 
 # unions of primitives
 _UNION_ROOT = {"classes": [{"name": "Root", "fields": [
